@@ -307,7 +307,7 @@ def inject(c):
         items.insert(at, A.For(vt, "lv9", A.ForList(vals, lbr, rbr), [A.Stmt("Body", A.Args([S.F1(A.Var("lv9"))], [], False), [zero])]))
         return rebuild(items), {"kind": "looptype", "slot": "loop-list", "first": at == 0}
     if fault == "include":
-        return rebuild(items), {"kind": "include", "slot": "call", "first": False, "how": r[0] % 8, "at": at}
+        return rebuild(items), {"kind": "include", "slot": "call", "first": False, "how": r[0] % 11, "at": at}
     return None
 
 
@@ -337,6 +337,9 @@ def include_fault(script, exp):
         ("arguments to a non-template", A.Stmt("plainsub", A.Args([], [["alpha", f("0.1")]], False), [zero, one, two], "[", "]")),
         ("all keywords plus an unknown extra one", A.Stmt("tmplsub", A.Args([], [["alpha", f("0.1")], ["gamma", f("0.2")], ["sq", f("0.5")]], False), [zero, one], "[", "]")),
         ("empty argument list for a template", A.Stmt("tmplsub", A.Args([], [], False), [zero, one], "[", "]")),
+        ("wrong mode count (too many, one mode written twice)", A.Stmt("tmplsub", A.Args([], [["alpha", f("0.1")], ["gamma", f("0.2")]], False), [zero, zero, one], "[", "]")),
+        ("wrong mode count (a single mode for a 2-mode template)", A.Stmt("tmplsub", A.Args([], [["alpha", f("0.1")], ["gamma", f("0.2")]], False), [zero], "", "")),
+        ("wrong mode count (4 modes, two of them repeated, for a 3-mode program)", A.Stmt("plainsub", None, [zero, one, two, one], "[", "]")),
     ]
     desc, st_ = calls[how]
     items.insert(exp["at"], st_)
